@@ -362,6 +362,26 @@ func (e *Engine) VerifyProps(props []string, only map[string]bool, opts runOpts,
 		}(o)
 	}
 	wg.Wait()
+	// second chance, unloaded: an obligation left open by a solver timeout while 16
+	// queries ran side by side is retried alone with every solver and 4x the time
+	// (a proof that only fails under load would otherwise be a false alarm)
+	retried := 0
+	for _, o := range rep.Obligations {
+		if o.Cover || o.Query == "" || retried >= 8 {
+			continue
+		}
+		if !(o.Verdict == "undecided" || (o.Verdict == "failed" && o.Candidate)) {
+			continue
+		}
+		retried++
+		full, fall := solve(prelude+o.Query, 4*opts.timeoutMs, "all")
+		o.All = append(o.All, fall...)
+		rep.SolverSecs += full.Secs
+		if full.Verdict == "unsat" {
+			full.Solver += " (retry, unloaded)"
+			o.Result, o.Verdict, o.Candidate = full, "discharged", false
+		}
+	}
 	return rep
 }
 
